@@ -163,7 +163,11 @@ func genEngineCfg(r *rand.Rand, p genParams) EngineCfg {
 			start = 0
 			c.Nilstart = true
 		}
-		c.Nodes = append(c.Nodes, NodeCfg{Kind: "flow", Retry: true, N: 1, Sty: []string{"-", "-", "-"}, Start: start})
+		fn := 1
+		if p.Mode == "flowretry" && r.Intn(2) == 0 {
+			fn = 2 + r.Intn(2)
+		}
+		c.Nodes = append(c.Nodes, NodeCfg{Kind: "flow", Retry: true, N: fn, Sty: []string{"-", "-", "-"}, Start: start})
 	}
 	c.Top = len(c.Nodes)
 	c.Runs = 1 + r.Intn(p.MaxRuns)
@@ -219,6 +223,9 @@ func paramsFor(mode string) genParams {
 	case "single": // one node, everything can fail
 		p.MaxLeaves, p.MaxFlows, p.MaxRuns, p.MaxN = 1, 0, 3, 8 // up to three runs of the same node object
 		p.PPrepErr, p.PExecErr, p.PFbErr, p.PPostErr, p.PNil, p.PEres = 0.08, 0.6, 0.4, 0.1, 0.15, 0.2
+	case "flowretry": // flows with a retry budget of their own: a failing sub-flow is executed again from its start
+		p.MaxFlows, p.MaxLeaves, p.MaxRuns, p.MaxVisits = 3, 4, 1, 10
+		p.PExecErr, p.PFbErr, p.PPostErr = 0.45, 0.5, 0.05
 	case "err", "faultenum", "nilstart":
 		p.PPrepErr, p.PExecErr, p.PFbErr, p.PPostErr, p.PNil, p.PEres = 0.03, 0.4, 0.3, 0.03, 0.1, 0.1
 		if mode == "faultenum" {
